@@ -238,6 +238,8 @@ func absSchemaToOpenAPI(a any) map[string]any {
 			out[f] = x
 		case "disc":
 			out["discriminator"] = map[string]any{"propertyName": x}
+		case "discmap":
+			out["discriminator"] = map[string]any{"propertyName": x, "mapping": map[string]any{"k": "#/components/schemas/S"}}
 		case "apFalse":
 			out["additionalProperties"] = false
 		case "apSchema":
@@ -294,7 +296,11 @@ func openAPIToAbsSchema(o map[string]any) (any, bool) {
 			out[f] = x
 		case "discriminator":
 			if dm, ok := x.(map[string]any); ok {
-				out["disc"] = dm["propertyName"]
+				if _, hasMap := dm["mapping"]; hasMap {
+					out["discmap"] = dm["propertyName"]
+				} else {
+					out["disc"] = dm["propertyName"]
+				}
 			}
 		case "additionalProperties":
 			if b, isb := x.(bool); isb {
